@@ -6,10 +6,10 @@ import cli, clitrace
 STAT = ["PASS", "FAIL", "SKIP"]
 
 
-def tests_yaml(cases):
+def tests_yaml(cases, start=0):
     out = []
     for k, c in enumerate(cases):
-        out.append("- name: case%d" % (k + 1))
+        out.append("- name: case%d" % (start + k + 1))
         out.append("  input: " + c["text"])
         out.append("  expectations:")
         if c["exp"]:
@@ -106,14 +106,25 @@ LAST_JUNIT_COUNTS = None
 
 def run_test_cmd(wd, i, c, cases, layout, fmt, events=None):
     base = "t%d" % i
+    # every other run with two or more cases keeps them in two test files (read in name order)
+    split = (len(cases) + 1) // 2 if (len(cases) >= 2 and i % 2 == 0) else 0
     if layout == "dir":
         wd.write("%s/rules.guard" % base, c["rules"])
-        wd.write("%s/tests/rules_tests.yaml" % base, tests_yaml(cases))
+        if split:
+            wd.write("%s/tests/rules_tests.yaml" % base, tests_yaml(cases[:split]))
+            wd.write("%s/tests/rules_tests_more.yaml" % base, tests_yaml(cases[split:], start=split))
+        else:
+            wd.write("%s/tests/rules_tests.yaml" % base, tests_yaml(cases))
         args = ["test", "--dir", os.path.join(wd.path, base)]
     else:
         rp = wd.write("%s/rules.guard" % base, c["rules"])
-        tp = wd.write("%s/rules_tests.yaml" % base, tests_yaml(cases))
-        args = ["test", "-r", rp, "-t", tp]
+        if split:
+            wd.write("%s/tdir/rules_tests.yaml" % base, tests_yaml(cases[:split]))
+            wd.write("%s/tdir/rules_tests_more.yaml" % base, tests_yaml(cases[split:], start=split))
+            args = ["test", "-r", rp, "-t", os.path.join(wd.path, base, "tdir"), "-a"]
+        else:
+            tp = wd.write("%s/rules_tests.yaml" % base, tests_yaml(cases))
+            args = ["test", "-r", rp, "-t", tp]
     if fmt != "plain":
         args += ["-o", fmt]
     rc, so, se = cli.run(args, env={"GUARD_VERIF_EVENTS": events} if events else None)
